@@ -3,11 +3,14 @@
 Correspondence streams (model `lean/Model/C05/*` vs the real btclib, same op lines):
   varint.parse                         CompactSize parser under every cap
   <class>.parse s|o <hex>              stream mode (BytesIO in, unread rest out) / octets mode
-      (assert_no_trailing) for varbytes, outpoint, witness, txin, txout, tx, header, block,
-      psbtmap, msg (p2p envelope), xkey (BIP32KeyData), keyorigin; on acceptance the line also carries
+      (assert_no_trailing) for varbytes, outpoint, witness, txin, txout, tx, header, block, psbtmap,
+      msg (p2p envelope), ping, feefilter, netaddr, addr, inventory, inv, getheaders, headers, version,
+      xkey (BIP32KeyData), keyorigin, ssasig, bmssig; on acceptance the line also carries
       the model's own re-serialization and size of the parsed object (and for tx: stripped form, both
       sizes, weight, vsize, txid, wtxid), so one op ties parser, serializer and size function.
   psbtmap.norm                         sorted re-emission of one PSBT input map
+  psbtin.reser0|2, psbtout.reser0|2    typed layer: `X.parse(b).serialize()` on every accepted map, records
+      the codec normalises away included (one-sided where btclib's refusal is semantic)
 Property oracles on the real code alone: `harness/c05_oracles.py` (round trips of every class with a
 parse/serialize or to_dict/from_dict pair) and the ones below.
 """
@@ -549,10 +552,11 @@ def p_msg(rng):
     elif bad < 0.14:
         raw = (bytes([rng.choice([1, 31, 127, 200])]) + cmd).ljust(12, b"\x00")[:12]   # non-printable
     chk = h256(pay)[:4]
-    if 0.14 <= bad < 0.2:
-        chk = bytes([chk[0] ^ 1]) + chk[1:]
+    if 0.14 <= bad < 0.3:
+        j = rng.randrange(4)
+        chk = chk[:j] + bytes([chk[j] ^ (1 << rng.randrange(8))]) + chk[j + 1:]
     ln = len(pay)
-    if 0.2 <= bad < 0.25:
+    if 0.3 <= bad < 0.35:
         ln = rng.choice([4_000_001, 2**32 - 1, len(pay) + 1])
     return (Parts().add("hash", rng.choice([bytes.fromhex("f9beb4d9"), common.rand_bytes(rng, 4)])).add("bytes", raw)
             .add("int", ln.to_bytes(4, "little")).add("hash", chk).add("bytes", pay))
